@@ -7,7 +7,7 @@ TEXT = ("exit 0 iff the complete text was written, any failure leaves the -o pat
         "returned error and the failing step's END line carries that count, --quiet prints nothing and changes nothing else: Lean theorems over the runner "
         "model for every world (glob/read/decode/build/write results are parameters). The model is tied by fault enumeration: the real binary and the "
         "in-process command run on every combination of defect class x flags x output-path state x input faults, and exit code, stdout and the -o file "
-        "before/after are compared with the model's prediction and judged directly against the property.")
+        "before/after are compared with the model's prediction and judged directly against the property. The failure kinds of reading the configuration are theorems over the read-config model: unreadable_input_fails, glob_error_fails, nothing_processed_fails, duplicate_match_fails (a file read under two patterns), each leading to exit 1 with the -o path untouched (read_failure_exits). Scenarios include a long pre-existing -o file that a successful run must replace completely.")
 TECHNIQUE = "Lean 4 theorems over a model of the runner (case analysis over all exit points) + fault-enumeration correspondence against the real command"
 LEAN_PROPS = ["C10"]
 TRUSTED = ["os.WriteFile leaves the file unmodified when it fails to open it (World.write contract; short writes are an OS matter)",
